@@ -52,16 +52,10 @@ ENUMS = [r"^scopeTypeToString\(", r"^functionTypeToString\(", r"^accessControlTo
 NUMBERS = [r"^std::to_string\(", r"^MathLib::toString\(", r"^static_cast<unsigned>\(", r"^\(settings\.platform\.sizeof_\w+ \* settings\.platform\.char_bit\)$",
            r"^macroUsage\.(macroLocation|useLocation)\.(line|col)$", r"^ifCond\.location\.(line|col)$", r"^ifCond\.result$",
            r"^suppression\.(lineNumber|hash|lineBegin|lineEnd)$", r"^errmsg\.callStack\.front\(\)\.(line|column)$"]
-# raw writers known at the pinned commit, with the reason their content cannot contain markup (or the finding)
-EXPECTED_RAW = {
-    ("Tokenizer::dump", "macroName", "tok->getMacroName()"): "macro name: an identifier (simplecpp rejects bytes >= 0x80 outside literals)",
-    ("Tokenizer::dump", "originalName", "tok->originalName()"): "typedef / using / platform type name, '->' for a simplified '.', 'std::NAME'",
-    ("Tokenizer::dump", "name", "fp.first"): "container function name from a library .cfg attribute  [finding: user .cfg text]",
-    ("Tokenizer::dumpTypedefInfo", "name", "typedefInfo.name"): "typedef name token: an identifier",
-    ("Tokenizer::dumpTypedefInfo", "originalName", "typedefInfo.originalName"): "struct/enum tag: an identifier",
-    ("Preprocessor::dump", "name", "macroUsage.macroName"): "macro name: an identifier",
-    ("CppCheck::getLibraryDumpData", "lib", "s"): "--library argument as typed  [finding: command line text]",
-}
+# Raw writers that are accepted.  Empty since c337bfd (every value goes through toxml / id_string / a number / bool / enum writer):
+# any RAW writer the scanner finds is an undischarged obligation.  (Before c337bfd: token macroName / originalName, typedef-info
+# name / originalName, macro-usage name, <containers><f name>, <library lib> - the last two were finding F14a.)
+EXPECTED_RAW = {}
 
 
 class Unrecognised(Exception):
